@@ -130,7 +130,9 @@ func loadHash(path string) (string, error) {
 func genC05Store(t *rapid.T) bson.D {
 	prog := genC05Program(t, 5)
 	// exhaustive over the plans is done in Run; the drawn part is the program
-	return progToCase(prog, nil)
+	// and whether the commits use WithTransaction or one long-lived session
+	// with the manual transaction calls
+	return progToCase(prog, bson.D{{Key: "manual", Value: rapid.Bool().Draw(t, "manual")}})
 }
 
 func runC05Store(c bson.D, x *Ctx) error {
@@ -153,8 +155,8 @@ func runC05Store(c bson.D, x *Ctx) error {
 			}
 			cc /= 3
 		}
-		if err := c05StorePlan(prog, plan, x); err != nil {
-			return fmt.Errorf("store-failure plan %v: %v", plan, err)
+		if err := c05StorePlan(prog, plan, asB(getD(c, "manual")), x); err != nil {
+			return fmt.Errorf("store-failure plan %v (manual session: %v): %v", plan, asB(getD(c, "manual")), err)
 		}
 	}
 	x.Rec.ClassN("store-failure-plans", total)
@@ -164,7 +166,7 @@ func runC05Store(c bson.D, x *Ctx) error {
 	return nil
 }
 
-func c05StorePlan(prog CrashProgram, plan map[int]string, x *Ctx) error {
+func c05StorePlan(prog CrashProgram, plan map[int]string, manual bool, x *Ctx) error {
 	dir, cleanup, err := scratchDir()
 	if err != nil {
 		return fmt.Errorf("harness: %v", err)
@@ -177,13 +179,28 @@ func c05StorePlan(prog CrashProgram, plan map[int]string, x *Ctx) error {
 		return fmt.Errorf("harness: %v", err)
 	}
 	defer engine.Close()
+	var sess lungo.ISession
+	if manual {
+		if sess, err = client.StartSession(); err != nil {
+			return fmt.Errorf("harness: %v", err)
+		}
+		x.Class("manual-session")
+	}
 	acked := CrashStateHash(engine.Catalog()) // last state for which Store returned nil
 	var persisted string                      // what the file holds if it differs (fail after persist)
 	storeCalls := 0
 	for i, cm := range prog.Commits {
 		before := CrashStateHash(engine.Catalog())
 		callsBefore := fs.calls
-		e := CrashApplyCommit(client, cm, i+1)
+		var e error
+		if manual {
+			e = CrashApplyCommitManual(client, sess, cm, i+1)
+		} else {
+			e = CrashApplyCommit(client, cm, i+1)
+		}
+		if e != nil && strings.HasPrefix(e.Error(), "StartTransaction:") {
+			return fmt.Errorf("commit %d: the session cannot start a transaction after the earlier commits (later commits must work): %v", i+1, e)
+		}
 		after := CrashStateHash(engine.Catalog())
 		stored := fs.calls > callsBefore
 		if stored {
@@ -218,6 +235,20 @@ func c05StorePlan(prog CrashProgram, plan map[int]string, x *Ctx) error {
 		// the visible state never runs ahead of the last acknowledged store
 		if CrashStateHash(engine.Catalog()) != acked {
 			return fmt.Errorf("after commit %d the visible state is not the last state the store acknowledged", i+1)
+		}
+		// a session whose commit failed is not left inside the dead
+		// transaction: what it reads is what every client reads
+		if manual {
+			var viaSession, direct int64
+			var e1, e2 error
+			_ = lungo.WithSession(context.Background(), sess, func(sc lungo.ISessionContext) error {
+				viaSession, e1 = client.Database("d1").Collection("a").CountDocuments(sc, bson.D{})
+				return nil
+			})
+			direct, e2 = client.Database("d1").Collection("a").CountDocuments(context.Background(), bson.D{})
+			if e1 != nil || e2 != nil || viaSession != direct {
+				return fmt.Errorf("after commit %d (store mode %q) the session counts %d documents (%v), other clients %d (%v)", i+1, mode, viaSession, e1, direct, e2)
+			}
 		}
 		// the writer slot is free: a read-only probe and the next commit work
 		ctx, cancel := context.WithTimeout(context.Background(), 3*time.Second)
